@@ -42,6 +42,8 @@ def _job_dirs(job_name: str):
 def _lose(plan_entry: dict, job) -> None:
     """fail-stop: delete exactly the directories of the jobs named in the plan entry (default: the failing job)"""
     names = [posixpath.join(s, t) for s, t in plan_entry.get("lose", [])] or [job.name]
+    for name in [posixpath.join(s, t) for s, t in plan_entry.get("replicate", [])]:
+        _replicate(name)
     for name in names:
         dirs = _job_dirs(name)
         if name == job.name and dirs is None:
@@ -52,6 +54,30 @@ def _lose(plan_entry: dict, job) -> None:
                 STATE["deleted"].append((name, d))
         STATE["events"].append(["lose", name])
         STATE["ports_done"].pop(name, None)
+
+
+def _replicate(job_name: str) -> None:
+    """copy every file of the job's output directory to the SECOND deployment (`shape.deps = 2`) and register the copy in the real
+    DataManager as a further primary data location of the same data (what a transfer to another location does)"""
+    from streamflow.core.data import DataType
+    dm = STATE["context"].data_manager
+    dirs = _job_dirs(job_name)
+    out_dir = dirs[1] if dirs else None
+    if not out_dir or not os.path.isdir(out_dir):
+        return
+    for base, _, files in os.walk(out_dir):
+        for f in files:
+            src = os.path.join(base, f)
+            srcs = [d for d in dm.get_data_locations(src, data_type=DataType.PRIMARY) if d.path == src]
+            if not srcs:
+                continue
+            dst = os.path.join(STATE["replica_root"], job_name.strip("/").replace("/", "_"), os.path.relpath(src, out_dir))
+            os.makedirs(os.path.dirname(dst), exist_ok=True)
+            shutil.copy2(src, dst)
+            dloc = dm.register_path(STATE["replica_loc"], dst, relpath=srcs[0].relpath)
+            dloc.available.set()
+            dm.register_relation(srcs[0], dloc)
+            STATE["events"].append(["replica", job_name, dst])
 
 
 def _inject(step_name: str, job, phase: str) -> bool:
@@ -247,9 +273,9 @@ async def _build(case: dict, context, workflow, translator, dep: str, location):
                             save_input_token=False)
         return inj.get_output_port(name)
 
-    def stage(name: str, inputs: dict, src_key: str, out_type: str, out_name: str = "out"):
+    def stage(name: str, inputs: dict, src_key: str, out_type: str, out_name: str = "out", on: str | None = None):
         cmd = f"lambda x : ('copy', '{out_type}', x['{src_key}'].value)"
-        st = translator.get_execute_pipeline(command=cmd, deployment_names=[dep], input_ports=inputs, outputs={out_name: out_type},
+        st = translator.get_execute_pipeline(command=cmd, deployment_names=[on or dep], input_ports=inputs, outputs={out_name: out_type},
                                              step_name=posixpath.join(posixpath.sep, name), workflow=workflow)
         steps["/" + name] = st
         return st
@@ -329,12 +355,22 @@ async def _run(case: dict) -> dict:
     STATE["inputs_dir"] = os.path.join(root, "inputs")
     STATE["fixed_tmp"] = {st: os.path.join(root, "work", "test-fs-volatile", "fixed-" + st.strip("/")) for st in case.get("fixed_tmp", [])}
     os.makedirs(STATE["inputs_dir"], exist_ok=True)
+    STATE["replica_root"] = os.path.join(root, "work1", "test-fs-volatile", "replicas")
     fm = ({"type": "default", "config": {"max_retries": case.get("max_retries"), "retry_delay": 0}}
           if case.get("manager", "rollback") == "rollback" else {"type": "dummy", "config": {}})
     context = build_context({"failureManager": fm, "database": {"type": "default", "config": {"connection": ":memory:"}}, "path": root})
     dep = "local-fs-volatile"
     config = get_local_deployment_config(name=dep, workdir=os.path.join(root, "work", "test-fs-volatile"))
     await context.deployment_manager.deploy(config)
+    configs = {dep: config}
+    for k in range(1, case["shape"].get("deps", 1)):
+        configs[f"{dep}-{k}"] = get_local_deployment_config(name=f"{dep}-{k}", workdir=os.path.join(root, f"work{k}", "test-fs-volatile"))
+        await context.deployment_manager.deploy(configs[f"{dep}-{k}"])
+    STATE["deps"] = list(configs)
+    STATE["context"] = context
+    if len(configs) > 1:
+        conn2 = context.deployment_manager.get_connector(STATE["deps"][1])
+        STATE["replica_loc"] = next(iter((await conn2.get_available_locations()).values())).location
     if case.get("trace_fm"):
         _trace_failure_manager(context)
     res: dict = {"outcome": None}
@@ -343,7 +379,7 @@ async def _run(case: dict) -> dict:
         location = next(iter((await connector.get_available_locations()).values())).location
         workflow = next(iter(await create_workflow(context, num_port=0)))
         translator = SfvTranslator(workflow)  # noqa: F821
-        translator.deployment_configs = {dep: config}
+        translator.deployment_configs = configs
         outs, steps = await _build(case, context, workflow, translator, dep, location)
         await workflow.save(context.database)
         executor = StreamFlowExecutor(workflow)
